@@ -59,7 +59,9 @@ func init() {
 		}
 		// re-arming
 		c.flowMay(x, "C06/confirm/rearm", "the timer is re-armed only with the helper's remaining time computed from (new count, k, time since start, min, max), only if it could be stopped and time remains; it is fired directly only if it could be stopped and no time remains (no double fire)",
-			func(e *gea.Effect) bool { return e.Class == "TIMERCALL:Reset" || e.Class == "GO" || e.Class == "CALLVALUE" || e.Class == "CALL:remainingSuspicionTime" },
+			func(e *gea.Effect) bool {
+				return e.Class == "TIMERCALL:Reset" || e.Class == "GO" || e.Class == "CALLVALUE" || e.Class == "CALL:remainingSuspicionTime"
+			},
 			func(e *gea.Effect) (bool, string) {
 				stop, _ := cubeAtom(e.Cube, "?m.timer.Stop()", "")
 				rem, okr := cubeAtom(e.Cube, "remainingSuspicionTime(", ">=1")
